@@ -143,6 +143,51 @@ def run(report, index, tier):
                         where=s.where)
             else:
                 r2.ok(construct, s.rootkind)
+    # mutable class attributes that instances mutate are shared state
+    for m in mods:
+        for cname, cnode in m.classes.items():
+            mutable = {}
+            for st in cnode.body:
+                if isinstance(st, ast.Assign) and isinstance(
+                        st.value, (ast.List, ast.Dict, ast.Set, ast.ListComp,
+                                   ast.DictComp, ast.SetComp)):
+                    for t in st.targets:
+                        if isinstance(t, ast.Name):
+                            mutable[t.id] = st
+                elif isinstance(st, ast.Assign) and isinstance(
+                        st.value, ast.Call) and ast.unparse(
+                        st.value.func) in ('list', 'dict', 'set',
+                                           'defaultdict', 'deque'):
+                    for t in st.targets:
+                        if isinstance(t, ast.Name):
+                            mutable[t.id] = st
+            if not mutable:
+                continue
+            methods = m.class_methods(cname)
+            init = methods.get('__init__')
+            rebound = set()
+            if init is not None:
+                for n in ast.walk(init):
+                    if isinstance(n, ast.Attribute) and isinstance(
+                            n.ctx, ast.Store) and isinstance(
+                            n.value, ast.Name) and n.value.id == 'self':
+                        rebound.add(n.attr)
+            for s in write_sites(m):
+                if s.cls != cname or s.rootkind != 'self' or s.base is None:
+                    continue
+                bt = ast.unparse(s.base)
+                for attr in mutable:
+                    if (bt == 'self.%s' % attr or bt.startswith(
+                            'self.%s[' % attr) or bt.startswith(
+                            'self.%s.' % attr)) and attr not in rebound:
+                        r2.fail('%s.%s shared mutable class attribute' % (
+                            cname, attr), '%s in %s.%s' % (
+                                s.text, cname, s.func),
+                            '`%s` is a mutable object created once in the '
+                            'class body of %s and never rebound per '
+                            'instance, but %s mutates it through self: all '
+                            'instances (all parses, all threads) share it'
+                            % (attr, cname, s.func), where=s.where)
     report.count('write sites on the parse path', nsites)
     # R15.3 ---------------------------------------------------------------
     r3 = report.rule('R15.3', 'instance attributes read by Lexer/Parser '
